@@ -3,5 +3,5 @@ CONSTANTS
   Depth = 1
   Slices = TRUE
 SPECIFICATION Spec
-INVARIANTS AnswerIsDeclarative IndexIsConsistent LinesRejoin RepLemma EmitCase
+INVARIANTS AnswerIsDeclarative IndexIsConsistent LinesRejoin EmitCase
 CHECK_DEADLOCK FALSE
